@@ -5,14 +5,14 @@ from harness.loop_base import LoopCheck
 class C18(LoopCheck):
     pid = "C18"
     props = {"C18"}
-    flows = ("plain", "resume")
+    flows = ("plain", "resume", "twice")
     thorough_schedules = ["fixed1", "fixed2", "fixed4", "adaptive_half"]
     adaptive_N3 = ("adaptive_half",)
     required_labels = []
 
 
 def _configs(self, tier):
-    out = LoopCheck.configs(self, tier)
+    out = [c for c in LoopCheck.configs(self, tier) if not (c["flow"] == "twice" and (c["n_final"] or c["schedule"] != "fixed2"))]
     if tier == "quick":
         # three particles, coarse tolerance: the minimum-step floor really binds
         # (the bisection result lies below it) on some paths, at low cost
